@@ -86,7 +86,8 @@ Advance ==
   /\ UNCHANGED <<inq, setBuf, delBuf, flag, timers, tick, outq, hist>>
 
 Next ==
-  \/ \E kind \in {"set", "del"}, k \in Keys_ : Arrive(kind, k, Len(hist) + 1)
+  \* (events arrive early enough for the bounded clock to see them leave)
+  \/ \E kind \in {"set", "del"}, k \in Keys_ : now + D < MaxTime /\ Arrive(kind, k, Len(hist) + 1)
   \/ Consume \/ TimerFires \/ Tick \/ Advance
 
 Spec == Init /\ [][Next]_vars
